@@ -36,7 +36,7 @@ def run(ctx):
                 "all tails behind a fixed header up to total length 12) and seeded structure-aware random mutants of random valid messages "
                 "(<= 6 mutations, <= 512 bytes); non-trivial = distinct buffer that the validity predicate ACCEPTS (its accessors are then all exercised and compared)")
     ctx.assumptions = ["ASan red zones decide 'reads only inside the n bytes' (block in front poisoned, buffer flush against the end of its block)",
-                       "termination = 2 s watchdog per call",
+                       "termination = watchdog per call (250 ms for length+validity, 2 s for the accessor sweep; terminating calls take microseconds)",
                        "padding bytes are not part of a decoder's result: the reference decoder is lenient on padding content, strict on structure",
                        "unknown type tag characters are payload-free (only the tag itself is compared)"]
     if ctx.replay:
